@@ -187,6 +187,12 @@ def run_da(prog, upto=None):
 
 # ------------------------------------------------------------------------ generation
 
+# ops inside the Lean mini-language (Model/Expr.lean); used by the correspondence streams
+MINI_OPS = (
+    "unary", "binary", "transpose", "getitem", "getitem", "rechunk", "reduce", "cumsum_seq", "concatenate",
+    "expand_dims", "squeeze", "flip", "stack", "roll", "diff",
+)
+
 DEFAULT_OPS = (
     "unary", "unary", "binary", "binary", "binary_new", "transpose", "getitem", "getitem", "rechunk", "reduce",
     "reduce", "cumsum", "concatenate", "stack", "expand_dims", "squeeze", "flip", "roll", "reshape",
@@ -220,7 +226,8 @@ def rand_basic_index(rng, shape, allow_none=True, allow_neg_step=True, allow_int
 
 
 class ProgGen:
-    def __init__(self, rng, ops=DEFAULT_OPS, maxrank=3, maxdim=6, maxsize=240, zero_axes=0.05, avoid=()):
+    def __init__(self, rng, ops=DEFAULT_OPS, maxrank=3, maxdim=6, maxsize=240, zero_axes=0.05, avoid=(), basic_only=False):
+        self.basic_only = basic_only
         self.rng = rng
         self.ops = ops
         self.maxrank = maxrank
@@ -254,7 +261,7 @@ class ProgGen:
             shape = tuple(0 if rng.random() < self.zero_axes else rng.randint(1, self.maxdim) for _ in range(r))
         step = {
             "op": "src", "shape": list(shape), "chunks": [list(c) for c in rand_chunks_nd(rng, shape)],
-            "mul": rng.choice([1, 1, 3, 7]), "off": rng.randint(-5, 5), "mod": rng.choice([1 << 40, 11, 5]),
+            "mul": rng.choice([1, 1, 3, 7]), "off": rng.randint(-5, 5), "mod": rng.choice([1 << 20, 11, 5]),
         }
         return self.add(step)
 
@@ -312,7 +319,9 @@ class ProgGen:
         a = self.pick()
         if self.env[a].ndim == 0:
             raise _Skip
-        idx = rand_basic_index(self.rng, self.env[a].shape)
+        idx = rand_basic_index(self.rng, self.env[a].shape, allow_none=not self.basic_only, allow_ellipsis=not self.basic_only)
+        if not idx:
+            raise _Skip
         return self.add({"op": "getitem", "args": [a], "index": _enc_index(idx)})
 
     def g_take(self):
@@ -356,6 +365,13 @@ class ProgGen:
         if x.ndim == 0:
             raise _Skip
         return self.add({"op": "cumsum", "args": [a], "axis": self.rng.randrange(x.ndim), "method": self.rng.choice(["sequential", "blelloch"])})
+
+    def g_cumsum_seq(self):
+        a = self.pick()
+        x = self.env[a]
+        if x.ndim == 0:
+            raise _Skip
+        return self.add({"op": "cumsum", "args": [a], "axis": self.rng.randrange(x.ndim), "method": "sequential"})
 
     def g_concatenate(self):
         a = self.pick()
